@@ -190,6 +190,9 @@ def run(tier, seed, only=None):
                 base = (R, txt, s)
                 # what the stopping rule of the linearisation iterations leaves open in the coordinates [mm]
                 lin_mm = netlevel.linearisation_bound(ref0, evs[0]["minx"] or []) if evs else 0.0
+                if evs and len(evs[-1]["x"]) == ref0.n:
+                    # + what Gauss-Newton neglects (change of the design matrix x residuals)
+                    lin_mm += netlevel.linearisation_bound_residual_term(ref0, evs[0]["minx"] or [], evs[-1]["x"], netlevel.min_sight(net))
                 lin_m0 = netlevel.linearisation_bound_m0(ref0, evs[0]["minx"] or [], evs[-1]["x"] if len(evs[-1]["x"]) == ref0.n else evs[0]["x"]) if evs else 0.0
                 continue
             if base is None:
